@@ -1,5 +1,418 @@
-import Netpol.Model.Cache
+import Netpol.Proofs.EvalLayer
+import Netpol.Properties.C11
+import Netpol.Properties.C15
+import Std.Data.String.ToInt
+/-! # C03 — `eval` answers agree with `list` (and with the semantics) for every query
+
+The Go code answers "is this connection allowed?" twice: `list` computes, per pair of peers, the
+*set* of allowed connections (`Engine.peerConns`, connection-set algebra), `eval` /
+`CheckIfAllowed` walks the rules for *one* (protocol, port) (`EState.checkIfAllowed`, model of
+`check_eval.go`, with the LRU cache of `eval_cache.go` in front). `Netpol.Proofs.EngineLayer` shows
+that the first computes the pointwise specification `Spec.allowed`; `Netpol.Proofs.EvalLayer` shows
+the same for the second (`EState.verdict_spec`), and that the second answers whenever the first
+does (`EState.verdict_total`). Here the consequences:
+
+* `eval_eq_list` — the two paths agree at every in-range point;
+* `eval_answers_when_list_does` — `eval` fails on no query `list` has an answer for;
+* `eval_self` — a pod may always talk to itself (the check precedes everything, cache included);
+* `eval_spec_exact` — after any consistent history of inserts / deletes / queries the answer of
+  `CheckIfAllowed` is `Spec.allowed` at the queried point (cache transparency C15 + `verdict_spec`).
+
+The query strings enter through `EState.Parses proto port pr n`: `proto` is a protocol name
+(case-insensitive) for `pr`, `port` is the decimal integer `n`. String parsing is not evaluated. -/
 namespace Netpol.Properties.C03
-open Netpol
+open Netpol EState Engine
+
+/-! ### A. the two paths agree -/
+
+/-- **C03, agreement.** For a valid engine, concrete peers (a real pod with its namespace, or one
+address), a destination with legal container ports, not the pod-to-itself pair: if `list` returns
+the set `c` for the pair and `eval` returns `v` for the in-range point `(pr, n)`, then `v` says
+whether `c` contains the point. -/
+theorem eval_eq_list (e : Engine) (hv : e.Valid) (sp dp : KPeer) (a b : Int)
+    (hs : sp.Concrete a) (hd : dp.Concrete b) (hdok : dp.DstOK)
+    (hne : isPodToItself sp dp = false) {proto port : String} {pr : Proto} {n : Int}
+    (hq : Parses proto port pr n) (hn : inRange n) {c : ConnSet} {v : Bool}
+    (hl : e.peerConns sp dp = .ok c) (he : verdict e sp dp proto port = .ok v) :
+    v = c.contains pr n := by
+  obtain ⟨hw, hden⟩ := (peerConns_spec e hv sp dp a b hs hd hdok hne).1 c hl
+  have hvs := (verdict_spec e hv sp dp a b hs hd hq hn).1 v he
+  rw [Bool.eq_iff_iff, C11.contains_iff hw hn, hden, hvs]
+
+/-- `ConnectionSet.Contains(port, protocol string)` on strings that parse -/
+theorem containsStr_eq (c : ConnSet) {proto port : String} {pr : Proto} {n : Int}
+    (hq : Parses proto port pr n) : c.containsStr port proto = c.contains pr n := by
+  unfold ConnSet.containsStr ConnSet.contains
+  rw [hq.hport, hq.hproto]
+  cases c.allowAll <;> rfl
+
+/-- the same with the string-level `Contains` of the Go connection set: what `eval` answers is
+what `Contains` answers on the set `list` reports -/
+theorem eval_eq_list_str (e : Engine) (hv : e.Valid) (sp dp : KPeer) (a b : Int)
+    (hs : sp.Concrete a) (hd : dp.Concrete b) (hdok : dp.DstOK)
+    (hne : isPodToItself sp dp = false) {proto port : String} {pr : Proto} {n : Int}
+    (hq : Parses proto port pr n) (hn : inRange n) {c : ConnSet} {v : Bool}
+    (hl : e.peerConns sp dp = .ok c) (he : verdict e sp dp proto port = .ok v) :
+    v = c.containsStr port proto := by
+  rw [containsStr_eq c hq]
+  exact eval_eq_list e hv sp dp a b hs hd hdok hne hq hn hl he
+
+/-- **C03, `eval` answers whenever `list` does.** If `list` returns a set for the pair, `eval`
+returns an answer for every in-range point: a named port towards an IP block that `list` never
+looked at (All Connections exit of the policy, or admin policies deciding everything) is not
+reached by the walk of `eval` either. -/
+theorem eval_answers_when_list_does (e : Engine) (hv : e.Valid) (sp dp : KPeer) (a b : Int)
+    (hs : sp.Concrete a) (hd : dp.Concrete b) (hdok : dp.DstOK) {proto port : String} {pr : Proto}
+    {n : Int} (hq : Parses proto port pr n) (hn : inRange n) {c : ConnSet}
+    (hl : e.peerConns sp dp = .ok c) :
+    ∃ v, verdict e sp dp proto port = .ok v :=
+  verdict_total e hv sp dp a b hs hd hdok hq hn c hl
+
+/-- both together: when `list` has an answer, `eval` has the same -/
+theorem eval_is_list (e : Engine) (hv : e.Valid) (sp dp : KPeer) (a b : Int)
+    (hs : sp.Concrete a) (hd : dp.Concrete b) (hdok : dp.DstOK)
+    (hne : isPodToItself sp dp = false) {proto port : String} {pr : Proto} {n : Int}
+    (hq : Parses proto port pr n) (hn : inRange n) {c : ConnSet}
+    (hl : e.peerConns sp dp = .ok c) :
+    verdict e sp dp proto port = .ok (c.contains pr n) := by
+  obtain ⟨v, hv'⟩ := eval_answers_when_list_does e hv sp dp a b hs hd hdok hq hn hl
+  rw [hv', eval_eq_list e hv sp dp a b hs hd hdok hne hq hn hl hv']
+
+/-- the converse fails only one way: `eval` may answer where `list` fails (`namedPortOnIP` in a
+rule the walk does not reach for this point); when `eval` fails, so does `list`, with the same
+error -/
+theorem list_fails_when_eval_does (e : Engine) (hv : e.Valid) (sp dp : KPeer) (a b : Int)
+    (hs : sp.Concrete a) (hd : dp.Concrete b) (hdok : dp.DstOK) {proto port : String} {pr : Proto}
+    {n : Int} (hq : Parses proto port pr n) (hn : inRange n) {err : Err}
+    (he : verdict e sp dp proto port = .error err) :
+    err = .namedPortOnIP ∧ e.peerConns sp dp = .error .namedPortOnIP := by
+  obtain ⟨h1, h2, h3⟩ := (verdict_spec e hv sp dp a b hs hd hq hn).2 err he
+  refine ⟨h1, ?_⟩
+  cases hl : e.peerConns sp dp with
+  | ok c =>
+    obtain ⟨v, hv'⟩ := eval_answers_when_list_does e hv sp dp a b hs hd hdok hq hn hl
+    rw [hv'] at he
+    cases he
+  | error err' =>
+    have hne : isPodToItself sp dp = false := by
+      cases sp with
+      | ip r => rfl
+      | pod p ns =>
+        cases dp with
+        | ip r => rfl
+        | pod q ms => cases h2
+    rw [((peerConns_spec e hv sp dp a b hs hd hdok hne).2 err' hl).1]
+
+/-! ### B. the self pair -/
+
+/-- **C03, self.** When source and destination resolve to the same pod, `CheckIfAllowed` answers
+`true` and leaves the state (cache included) untouched — whatever the policies, the strings, the
+cache. -/
+theorem eval_self (s : EState) (src dst proto port : String) {sp dp : KPeer}
+    (hsp : getPeer s.eng src = .ok sp) (hdp : getPeer s.eng dst = .ok dp)
+    (h : isPodToItself sp dp = true) :
+    s.checkIfAllowed src dst proto port = (.ok true, s) := by
+  rw [checkIfAllowed_eq, hsp, hdp]
+  simp [h]
+
+/-- `list` agrees: the pair gets All Connections, which contains every point -/
+theorem list_self (e : Engine) (sp dp : KPeer) (h : isPodToItself sp dp = true) (pr : Proto)
+    (n : Int) : ∃ c, e.peerConns sp dp = .ok c ∧ c.contains pr n = true :=
+  ⟨ConnSet.mk' true, peerConns_self e sp dp h, rfl⟩
+
+/-! ### C. the answer of `CheckIfAllowed` is the specification -/
+
+/-- the cache-less answer of any state, for resolved concrete peers -/
+theorem uncached_spec (s : EState) (hv : s.eng.Valid) (src dst : String) {sp dp : KPeer}
+    (hsp : getPeer s.eng src = .ok sp) (hdp : getPeer s.eng dst = .ok dp) (a b : Int)
+    (hs : sp.Concrete a) (hd : dp.Concrete b) (hne : isPodToItself sp dp = false)
+    {proto port : String} {pr : Proto} {n : Int} (hq : Parses proto port pr n) (hn : inRange n) :
+    (∀ v, s.uncached src dst proto port = .ok v →
+      v = Spec.allowed s.eng.toView (sp.toEnd a) (dp.toEnd b) pr n) ∧
+    (∀ err, s.uncached src dst proto port = .error err →
+      err = .namedPortOnIP ∧ dp.isPod = false ∧ sp.isPod = true) := by
+  rw [uncached_eq, hsp, hdp]
+  simp only [hne, Bool.false_eq_true, if_false]
+  exact verdict_spec s.eng hv sp dp a b hs hd hq hn
+
+/-- the validity of the rules held by an engine (what the API server guarantees); the fourth
+clause of `Engine.Valid`, the order of the admin policies, is an invariant of the engine -/
+def RulesValid (e : Engine) : Prop :=
+  (∀ np ∈ e.netpols, (∀ r ∈ np.ingress, r.Valid) ∧ (∀ r ∈ np.egress, r.Valid)) ∧
+  (∀ a ∈ e.anps, ARule.ListValid a.ingress ∧ ARule.ListValid a.egress) ∧
+  Engine.banpOK e.banp
+
+/-- in every reachable state validity of the rules is validity of the engine -/
+theorem valid_of_reachable (n : Nat) (ops : List HOp)
+    (h : RulesValid (EState.run { cache := { cap := n } } ops).eng) :
+    (EState.run { cache := { cap := n } } ops).eng.Valid :=
+  (Engine.valid_iff _).mpr ⟨h.1, h.2.1, h.2.2, C15.anps_sorted_invariant n ops⟩
+
+/-- **C03, exactness.** After any history `ops` of inserts, deletes, queries and clears that is
+consistent in the sense of C15 (`OpsConsistent`: pods with one owner key are interchangeable, the
+cache key splits in one way), with valid rules in the engine, a query whose ends resolve to
+concrete peers other than one pod twice, with strings that parse to an in-range point, is
+answered by `Spec.allowed` at that point — cached or not. The only possible failure is
+`namedPortOnIP`, for an IP destination. -/
+theorem eval_spec_exact (attrs : String → Labels × List CPort) (nsOf : String → String)
+    (n : Nat) (ops : List HOp) (src dst proto port : String)
+    (h : OpsConsistent attrs nsOf (ops ++ [.q src dst proto port]))
+    (hrv : RulesValid (EState.run { cache := { cap := n } } ops).eng) {sp dp : KPeer}
+    (hsp : getPeer (EState.run { cache := { cap := n } } ops).eng src = .ok sp)
+    (hdp : getPeer (EState.run { cache := { cap := n } } ops).eng dst = .ok dp) (a b : Int)
+    (hs : sp.Concrete a) (hd : dp.Concrete b) (hne : isPodToItself sp dp = false)
+    {pr : Proto} {x : Int} (hq : Parses proto port pr x) (hx : inRange x) :
+    (∀ v, ((EState.run { cache := { cap := n } } ops).checkIfAllowed src dst proto port).1 = .ok v →
+      v = Spec.allowed (EState.run { cache := { cap := n } } ops).eng.toView
+        (sp.toEnd a) (dp.toEnd b) pr x) ∧
+    (∀ err, ((EState.run { cache := { cap := n } } ops).checkIfAllowed src dst proto port).1
+        = .error err → err = .namedPortOnIP ∧ dp.isPod = false ∧ sp.isPod = true) := by
+  rw [C15.cache_transparent attrs nsOf n ops src dst proto port h]
+  exact uncached_spec _ (valid_of_reachable n ops hrv) src dst hsp hdp a b hs hd hne hq hx
+
+/-- the two cases in one statement: the answer of `CheckIfAllowed` is "the same pod, or allowed by
+the specification" -/
+theorem eval_spec_exact_or_self (attrs : String → Labels × List CPort) (nsOf : String → String)
+    (n : Nat) (ops : List HOp) (src dst proto port : String)
+    (h : OpsConsistent attrs nsOf (ops ++ [.q src dst proto port]))
+    (hrv : RulesValid (EState.run { cache := { cap := n } } ops).eng) {sp dp : KPeer}
+    (hsp : getPeer (EState.run { cache := { cap := n } } ops).eng src = .ok sp)
+    (hdp : getPeer (EState.run { cache := { cap := n } } ops).eng dst = .ok dp) (a b : Int)
+    (hs : sp.Concrete a) (hd : dp.Concrete b)
+    {pr : Proto} {x : Int} (hq : Parses proto port pr x) (hx : inRange x) (v : Bool)
+    (hv : ((EState.run { cache := { cap := n } } ops).checkIfAllowed src dst proto port).1 = .ok v) :
+    v = (isPodToItself sp dp ||
+      Spec.allowed (EState.run { cache := { cap := n } } ops).eng.toView
+        (sp.toEnd a) (dp.toEnd b) pr x) := by
+  cases hself : isPodToItself sp dp
+  · rw [Bool.false_or]
+    exact (eval_spec_exact attrs nsOf n ops src dst proto port h hrv hsp hdp a b hs hd hself hq hx).1
+      v hv
+  · rw [eval_self _ src dst proto port hsp hdp hself] at hv
+    cases hv
+    rfl
+
+/-- **C03, exactness for two pods** (the case the cache serves): the answer *is* the
+specification, there is no failure -/
+theorem eval_spec_exact_pods (attrs : String → Labels × List CPort) (nsOf : String → String)
+    (n : Nat) (ops : List HOp) (src dst proto port : String)
+    (h : OpsConsistent attrs nsOf (ops ++ [.q src dst proto port]))
+    (hrv : RulesValid (EState.run { cache := { cap := n } } ops).eng)
+    {p q : Pod} {ns ms : NsObj}
+    (hsp : getPeer (EState.run { cache := { cap := n } } ops).eng src = .ok (.pod p (some ns)))
+    (hdp : getPeer (EState.run { cache := { cap := n } } ops).eng dst = .ok (.pod q (some ms)))
+    (hp : p.isRepresentative = false) (hq' : q.isRepresentative = false)
+    (hne : (p.name == q.name && p.ns == q.ns) = false)
+    {pr : Proto} {x : Int} (hq : Parses proto port pr x) (hx : inRange x) :
+    ((EState.run { cache := { cap := n } } ops).checkIfAllowed src dst proto port).1 =
+      .ok (Spec.allowed (EState.run { cache := { cap := n } } ops).eng.toView
+        (.pod p ns.labels) (.pod q ms.labels) pr x) := by
+  obtain ⟨h1, h2⟩ := eval_spec_exact attrs nsOf n ops src dst proto port h hrv hsp hdp 0 0
+    (show (KPeer.pod p (some ns)).Concrete 0 from hp) (show (KPeer.pod q (some ms)).Concrete 0 from hq')
+    hne hq hx
+  cases hc : ((EState.run { cache := { cap := n } } ops).checkIfAllowed src dst proto port).1 with
+  | ok v => rw [h1 v hc]; rfl
+  | error err =>
+    obtain ⟨_, hh, _⟩ := h2 err hc
+    cases hh
+
+/-! ## non-vacuity: concrete engines and queries
+
+The walk on a parsed point (`EState.verdictP`, equal to `EState.verdict` on strings that parse by
+`EState.verdict_eq_parsed`) evaluates in the kernel. That concrete port strings parse
+(`"8080".toInt? = some 8080`) is taken from the toolchain's `Std.Data.String.ToInt`
+(`Nat.toInt?_repr`), used in this section only; `getPeer` on the strings `"n/a"`, `"n/b"` is
+unrolled in `Properties/C15.lean`. -/
+namespace Example
+attribute [local instance] Engine.decEqExcept
+
+theorem toInt_nat (k : Nat) : (Nat.repr k).toInt? = some (k : Int) := Nat.toInt?_repr k
+
+theorem parses_tcp_8080 : Parses "TCP" "8080" .TCP 8080 :=
+  ⟨by decide +kernel, toInt_nat 8080⟩
+theorem parses_lower_tcp_8081 : Parses "tcp" "8081" .TCP 8081 :=
+  ⟨by decide +kernel, toInt_nat 8081⟩
+theorem parses_udp_53 : Parses "UDP" "53" .UDP 53 :=
+  ⟨by decide +kernel, toInt_nat 53⟩
+theorem parses_tcp_80 : Parses "TCP" "80" .TCP 80 :=
+  ⟨by decide +kernel, toInt_nat 80⟩
+theorem parses_tcp_81 : Parses "TCP" "81" .TCP 81 :=
+  ⟨by decide +kernel, toInt_nat 81⟩
+
+def nsN : NsObj := ⟨"n", [("kubernetes.io/metadata.name", "n")]⟩
+def podA : Pod :=
+  { ns := "n", name := "a", labels := [("app", "a")], ports := [], ownerKind := "ReplicaSet",
+    ownerName := "ra", variant := "map[app:a]" }
+def podB : Pod :=
+  { ns := "n", name := "b", labels := [("app", "b")], ports := [⟨"http", .TCP, 8080⟩],
+    ownerKind := "ReplicaSet", ownerName := "rb", variant := "map[app:b]" }
+def A : KPeer := .pod podA (some nsN)
+def B : KPeer := .pod podB (some nsN)
+/-- 10.0.0.1 -/
+def ipIn : Int := 167772161
+def X : KPeer := .ip [⟨ipIn, ipIn⟩]
+
+/-- ingress to `b`: from `app=a` on the named port `http`; from anywhere on UDP 53 -/
+def toB : NetPol :=
+  { ns := "n", name := "to-b", podSel := ⟨[("app", "b")], []⟩, types := [.ingress],
+    ingress := [⟨[.sel (some ⟨[("app", "a")], []⟩) none], [⟨none, .name "http"⟩]⟩,
+                ⟨[], [⟨some .UDP, .num 53 none⟩]⟩],
+    egress := [] }
+
+def eng1 : Engine := { namespaces := [nsN], pods := [podA, podB], netpols := [toB] }
+
+/-! the hypotheses of the theorems hold -/
+example : eng1.Valid := by decide
+example : A.Concrete 0 ∧ B.Concrete 0 ∧ B.DstOK ∧ X.Concrete ipIn ∧ X.DstOK := by decide
+example : isPodToItself A B = false ∧ isPodToItself A A = true := by decide
+example : inRange 8080 ∧ inRange 53 ∧ ¬ inRange 0 ∧ ¬ inRange 65536 := by decide
+
+/-! `list`, `eval` and the specification on `a → b` -/
+def connAB : ConnSet := ⟨false, some ⟨[⟨8080, 8080⟩], [], []⟩, some ⟨[⟨53, 53⟩], [], []⟩, none⟩
+
+theorem list_AB : eng1.peerConns A B = .ok connAB := by decide
+
+example : verdictP eng1 A B (some .TCP) 8080 = .ok true ∧
+    verdictP eng1 A B (some .TCP) 8081 = .ok false ∧
+    verdictP eng1 A B (some .UDP) 53 = .ok true ∧
+    verdictP eng1 A B (some .UDP) 8080 = .ok false := by decide
+
+/-- the string-level walk, computed -/
+example : verdict eng1 A B "TCP" "8080" = .ok true ∧ verdict eng1 A B "tcp" "8081" = .ok false ∧
+    verdict eng1 A B "UDP" "53" = .ok true := by
+  rw [verdict_eq_parsed _ _ _ parses_tcp_8080, verdict_eq_parsed _ _ _ parses_lower_tcp_8081,
+    verdict_eq_parsed _ _ _ parses_udp_53]
+  decide
+
+example : connAB.contains .TCP 8080 = true ∧ connAB.contains .TCP 8081 = false ∧
+    connAB.contains .UDP 53 = true := by decide
+
+/-- (`Spec.anpVerdict` sorts with `mergeSort`, which `decide` does not unfold;
+`Engine.anpVerdict_sorted` removes it on the engine's sorted list) -/
+example : Spec.allowed eng1.toView (A.toEnd 0) (B.toEnd 0) .TCP 8080 = true ∧
+    Spec.allowed eng1.toView (A.toEnd 0) (B.toEnd 0) .TCP 8081 = false := by
+  simp only [Spec.allowed, Spec.allowedDir_eq, Engine.anpVerdict_sorted eng1 (by decide)]
+  decide
+
+/-- the theorem at work: the answer of `eval` obtained from the report of `list` -/
+example : verdict eng1 A B "TCP" "8080" = .ok true :=
+  eval_is_list eng1 (by decide) A B 0 0 (by decide) (by decide) (by decide) (by decide)
+    parses_tcp_8080 (by decide) list_AB
+
+/-! egress towards an address: the All Connections exit, and the named port -/
+
+/-- egress from `a`: `rules` -/
+def fromA (rules : List NPRule) : NetPol :=
+  { ns := "n", name := "from-a", podSel := ⟨[("app", "a")], []⟩, types := [.egress],
+    ingress := [], egress := rules }
+def toBlock : NPRule := ⟨[.ip ⟨0x0A000000, 8⟩ []], []⟩
+def namedDns : NPRule := ⟨[], [⟨none, .name "dns"⟩]⟩
+def port80 : NPRule := ⟨[], [⟨none, .num 80 none⟩]⟩
+def engE (rules : List NPRule) : Engine :=
+  { namespaces := [nsN], pods := [podA, podB], netpols := [fromA rules] }
+
+example : (engE [toBlock, namedDns]).Valid ∧ (engE [namedDns, toBlock]).Valid ∧
+    (engE [port80, namedDns]).Valid := by decide
+
+/-- everything to 10.0.0.0/8 first: `list` leaves the loop before the named port, `eval` stops at
+the first rule — both answer (`eval_answers_when_list_does`) -/
+example : (engE [toBlock, namedDns]).peerConns A X = .ok (ConnSet.mk' true) ∧
+    verdictP (engE [toBlock, namedDns]) A X (some .TCP) 80 = .ok true := by decide
+
+/-- the named port first: both fail, with the same error (`list_fails_when_eval_does`) -/
+example : (engE [namedDns, toBlock]).peerConns A X = .error .namedPortOnIP ∧
+    verdictP (engE [namedDns, toBlock]) A X (some .TCP) 80 = .error .namedPortOnIP := by decide
+
+example : verdict (engE [namedDns, toBlock]) A X "TCP" "80" = .error .namedPortOnIP := by
+  rw [verdict_eq_parsed _ _ _ parses_tcp_80]
+  decide
+
+/-- the converse of `eval_answers_when_list_does` fails: `list` evaluates the rule with the named
+port (port 80 alone is not everything) and fails; `eval` answers for the point the first rule
+allows, and fails for another -/
+example : (engE [port80, namedDns]).peerConns A X = .error .namedPortOnIP ∧
+    verdictP (engE [port80, namedDns]) A X (some .TCP) 80 = .ok true ∧
+    verdictP (engE [port80, namedDns]) A X (some .TCP) 81 = .error .namedPortOnIP := by decide
+
+/-! admin policies in front: `Pass` hands over to the NetworkPolicy, `Deny` decides -/
+def anpPassDeny : ANP :=
+  { name := "anp", prio := 10, subject := .nss ⟨[], []⟩,
+    ingress := [⟨"pass-http", .Pass, [.nss ⟨[], []⟩], some [.named "http"]⟩,
+                ⟨"deny-udp", .Deny, [.nss ⟨[], []⟩], some [.num (some .UDP) 53]⟩],
+    egress := [] }
+def eng2 : Engine := { eng1 with anps := [anpPassDeny], anpNames := ["anp"] }
+
+example : eng2.Valid := by decide
+example : eng2.peerConns A B = .ok ⟨false, some ⟨[⟨8080, 8080⟩], [], []⟩, none, none⟩ ∧
+    verdictP eng2 A B (some .TCP) 8080 = .ok true ∧
+    verdictP eng2 A B (some .UDP) 53 = .ok false := by decide
+
+/-! the self pair and the full statement, through `CheckIfAllowed` -/
+open C15.Example (getPeer_na getPeer_nb run_append)
+
+def init : EState := { cache := { cap := 10 } }
+def setup : List HOp := [.ins (.ns nsN), .ins (.pod podA), .ins (.pod podB), .ins (.np toB)]
+def query : HOp := .q "n/a" "n/b" "TCP" "8080"
+
+theorem setup_eng : (init.run setup).eng = eng1 := by rfl
+
+theorem peer_a (s : EState) (h : s.eng = eng1) : getPeer s.eng "n/a" = .ok A := by
+  rw [getPeer_na, h]; rfl
+theorem peer_b (s : EState) (h : s.eng = eng1) : getPeer s.eng "n/b" = .ok B := by
+  rw [getPeer_nb, h]; rfl
+
+/-- a pod to itself: allowed, whatever the strings -/
+example : (init.run setup).checkIfAllowed "n/b" "n/b" "no-protocol" "no-port" =
+    (.ok true, init.run setup) :=
+  eval_self _ _ _ _ _ (peer_b _ setup_eng) (peer_b _ setup_eng) (by decide)
+
+def exAttrs (k : String) : Labels × List CPort :=
+  if k = "n/ra/map[app:a]" then ([("app", "a")], []) else ([("app", "b")], [⟨"http", .TCP, 8080⟩])
+def exNsOf (_ : String) : String := "n"
+
+/-- the history is consistent, also with the query asked twice (the second time from the cache) -/
+theorem hist_consistent : OpsConsistent exAttrs exNsOf (setup ++ [query]) := by
+  constructor <;> decide
+theorem hist_consistent' : OpsConsistent exAttrs exNsOf ((setup ++ [query]) ++ [query]) := by
+  constructor <;> decide
+
+theorem rulesValid_eng1 : RulesValid eng1 := by
+  refine ⟨by decide, by decide, ?_⟩
+  exact (by decide : Engine.banpOK eng1.banp)
+
+theorem spec_AB : Spec.allowed eng1.toView (.pod podA nsN.labels) (.pod podB nsN.labels) .TCP 8080
+    = true := by
+  simp only [Spec.allowed, Spec.allowedDir_eq, Engine.anpVerdict_sorted eng1 (by decide)]
+  decide
+
+/-- `eval_spec_exact_pods` applied: the first query (computed) … -/
+example : ((init.run setup).checkIfAllowed "n/a" "n/b" "TCP" "8080").1 = .ok true := by
+  have h := eval_spec_exact_pods exAttrs exNsOf 10 setup "n/a" "n/b" "TCP" "8080" hist_consistent
+    (by rw [show (EState.run { cache := { cap := 10 } } setup).eng = eng1 from setup_eng]
+        exact rulesValid_eng1)
+    (peer_a _ setup_eng) (peer_b _ setup_eng) (by decide) (by decide) (by decide)
+    parses_tcp_8080 (by decide)
+  rw [show (EState.run { cache := { cap := 10 } } setup).eng = eng1 from setup_eng, spec_AB] at h
+  exact h
+
+theorem setup_query_eng : (init.run (setup ++ [query])).eng = eng1 := by
+  rw [run_append]
+  show ((init.run setup).checkIfAllowed "n/a" "n/b" "TCP" "8080").2.eng = eng1
+  rw [checkIfAllowed_eng, setup_eng]
+
+/-- … and the same query asked again, now served by the cache: still the specification -/
+example : ((init.run (setup ++ [query])).checkIfAllowed "n/a" "n/b" "TCP" "8080").1 = .ok true := by
+  have h := eval_spec_exact_pods exAttrs exNsOf 10 (setup ++ [query]) "n/a" "n/b" "TCP" "8080"
+    hist_consistent'
+    (by rw [show (EState.run { cache := { cap := 10 } } (setup ++ [query])).eng = eng1
+          from setup_query_eng]
+        exact rulesValid_eng1)
+    (peer_a _ setup_query_eng) (peer_b _ setup_query_eng) (by decide) (by decide) (by decide)
+    parses_tcp_8080 (by decide)
+  rw [show (EState.run { cache := { cap := 10 } } (setup ++ [query])).eng = eng1
+    from setup_query_eng, spec_AB] at h
+  exact h
+
+end Example
 
 end Netpol.Properties.C03
